@@ -1,35 +1,39 @@
-//@ kernel insexc serves=C02
+//@ kernel insexc serves=C02,C03
 //@ include specenv.v.rs
-//@ item src/subrule.rs impl SubRule members=get_exceptions,match_before_env,match_after_env,insertion_match_exceptions
+//@ item src/word.rs struct SegPos
+//@ item src/word.rs impl SegPos members=new,at_word_start,at_syll_start,reversed,at_word_end,increment
+//@ item src/word.rs impl Word members=in_bounds,out_of_bounds,reverse
+//@ item src/subrule.rs impl SubRule members=get_exceptions,match_before_env,match_after_env,insertion_match_exceptions,context_match,context_match_ipa,context_match_matrix,context_match_syll,context_match_structure,context_match_var,context_match_set,context_match_option,context_match_ellipsis
+//@ stub SegPos::reversed
+//@ stub SegPos::at_word_end
+//@ stub SegPos::increment
+//@ stub Word::in_bounds
+//@ stub Word::out_of_bounds
+//@ stub Word::reverse
 //@ stub SubRule::get_exceptions
 //@ stub SubRule::match_before_env
 //@ stub SubRule::match_after_env
+//@ stub SubRule::context_match_ipa
+//@ stub SubRule::context_match_matrix
+//@ stub SubRule::context_match_syll
+//@ stub SubRule::context_match_structure
+//@ stub SubRule::context_match_var
+//@ stub SubRule::context_match_set
+//@ stub SubRule::context_match_option
+//@ stub SubRule::context_match_ellipsis
 
 //@ pre
-// ---- the exception test of INSERTION rules (`* > x / .. | y_z`).  Positions are opaque here; `SegPos::reversed`
-// carries the precondition under which it is proved in the `positions` kernel (its own debug_assert).
-#[derive(Clone, Copy)]
-#[verifier::external_body]
-pub struct SegPos { _o: u8 }
-pub uninterp spec fn pos_in_bounds(w: Word, p: SegPos) -> bool;
-pub uninterp spec fn prev(p: SegPos, w: Word) -> SegPos;
-pub uninterp spec fn wrev(w: Word) -> Word;
-pub uninterp spec fn at_end(p: SegPos, w: Word) -> bool;
+// ---- interpreter functions that do not touch the RefCell binding tables, with the word opaque (as in the
+// condensed kernel) and positions REAL (SegPos is two indices).  What needs the word's contents is an R6 stub whose
+// contract is the one proved for the real function in the `positions` kernel.
+pub uninterp spec fn pos_in_bounds(w: Word, p: SegPos) -> bool;      // Word::in_bounds
+pub uninterp spec fn prev(p: SegPos, w: Word) -> SegPos;             // SegPos::reversed
+pub uninterp spec fn pinc(p: SegPos, w: Word) -> SegPos;             // SegPos::increment
+pub uninterp spec fn wrev(w: Word) -> Word;                          // Word::reverse
+pub uninterp spec fn at_end(p: SegPos, w: Word) -> bool;             // SegPos::at_word_end
 pub uninterp spec fn bef_spec(sr: SubRule, states: Seq<Item>, w: Word, p: SegPos, ins: bool, is_context: bool) -> Result<bool, RuleRuntimeError>;
 pub uninterp spec fn aft_spec(sr: SubRule, states: Seq<Item>, w: Word, p: SegPos, ins: bool, inc: bool, is_context: bool) -> Result<bool, RuleRuntimeError>;
-impl SegPos {
-    #[verifier::external_body]
-    pub(crate) fn reversed(&self, word: &Word) -> (r: Self)
-        requires /*#reversed.needs_an_in_bounds_position C02*/ pos_in_bounds(*word, *self),
-        ensures r == prev(*self, *word)
-    { unimplemented!() }
-    #[verifier::external_body]
-    pub(crate) fn at_word_end(&self, word: &Word) -> (r: bool) ensures r == at_end(*self, *word) { unimplemented!() }
-}
-impl Word {
-    #[verifier::external_body]
-    pub(crate) fn reverse(&self) -> (r: Self) ensures r == wrev(*self) { unimplemented!() }
-}
+pub uninterp spec fn ipa_spec(sr: SubRule, s: Segment, mods: Option<Modifiers>, w: Word, p: SegPos) -> Result<bool, RuleRuntimeError>;
 // trusted std contract: slice::reverse
 pub assume_specification<T>[ <[T]>::reverse ](s: &mut [T])
     ensures final(s)@ == old(s)@.reverse();
@@ -40,7 +44,43 @@ impl PartialEq for ParseElement {
     #[verifier::external_body]
     fn eq(&self, other: &Self) -> (r: bool) ensures r == (*self == *other) { unimplemented!() }
 }
+/// the kinds an environment element can have (the parser never puts `*`, `&` or a nested environment there)
+pub open spec fn env_element_kind(k: ParseElement) -> bool {
+    !(k is EmptySet) && !(k is Metathesis) && !(k is Environment)
+}
 //@ end
+
+// ---- stubs: contracts as proved for the real functions in the `positions` kernel
+//@ contract SegPos::reversed ret=r
+    requires /*#reversed.needs_an_in_bounds_position C02*/ pos_in_bounds(*word, *self),
+    ensures r == prev(*self, *word),
+//@ end
+//@ contract SegPos::at_word_end ret=r
+    ensures r == at_end(*self, *word),
+//@ end
+//@ contract SegPos::increment
+    ensures *final(self) == pinc(*old(self), *word),
+//@ end
+//@ contract Word::in_bounds ret=r
+    ensures r == pos_in_bounds(*self, seg_pos),
+//@ end
+//@ contract Word::out_of_bounds ret=r
+    ensures r == !pos_in_bounds(*self, seg_pos),
+//@ end
+//@ contract Word::reverse ret=r
+    ensures r == wrev(*self),
+//@ end
+//@ contract SegPos::new ret=r
+    ensures r == (SegPos { syll_index, seg_index }),
+//@ end
+//@ contract SegPos::at_word_start ret=r
+    ensures r == (self.syll_index == 0 && self.seg_index == 0),
+//@ end
+//@ contract SegPos::at_syll_start ret=r
+    ensures r == (self.seg_index == 0),
+//@ end
+
+// =================================================================== insertion_match_exceptions
 //@ contract SubRule::get_exceptions ret=r
     ensures self.except is None ==> r@.len() == 0,
 //@ end
@@ -54,4 +94,25 @@ impl PartialEq for ParseElement {
     // NO precondition on ins_pos: an insertion point may lie one past the end of a syllable (the function itself
     // has an "edge case for when insertion position is out of bounds")
     ensures /*#insexc.no_exception_means_not_excepted C02*/ self.except is None ==> r == Ok::<bool, RuleRuntimeError>(false),
+//@ end
+
+// =================================================================== context_match: the boundary arms and the literal arm
+//@ contract SubRule::context_match_ipa ret=r
+    ensures r == ipa_spec(*self, *s, *mods, *word, pos),
+//@ end
+//@ contract SubRule::context_match ret=r
+    requires *old(state_index) < states@.len(), env_element_kind(states@[*old(state_index) as int].kind),
+    ensures
+        /*#context_match.word_boundary_is_the_out_of_bounds_test C03*/ states@[*old(state_index) as int].kind is WordBound ==> (
+            r == Ok::<bool, RuleRuntimeError>(!pos_in_bounds(*word, *old(pos))) && *final(pos) == *old(pos) && *final(state_index) == *old(state_index)),
+        /*#context_match.syll_boundary_is_segment_index_zero C03*/ states@[*old(state_index) as int].kind is SyllBound ==> (
+            r == Ok::<bool, RuleRuntimeError>(old(pos).seg_index == 0 && !(ins_match_before && old(pos).syll_index == 0))
+            && *final(pos) == *old(pos) && *final(state_index) == *old(state_index)),
+        /*#context_match.literal_consumes_one_position_iff_matched C03*/ states@[*old(state_index) as int].kind matches ParseElement::Ipa(s, m) ==> (
+            *final(state_index) == *old(state_index)
+            && (match ipa_spec(*self, s, m, *word, *old(pos)) {
+                    Ok(true) => r == Ok::<bool, RuleRuntimeError>(true) && *final(pos) == pinc(*old(pos), *word),
+                    Ok(false) => r == Ok::<bool, RuleRuntimeError>(false) && *final(pos) == *old(pos),
+                    Err(e) => r == Err::<bool, RuleRuntimeError>(e) && *final(pos) == *old(pos),
+                })),
 //@ end
